@@ -468,7 +468,9 @@ func TestC13(t *testing.T) {
 		}
 		Col.MarkExhaustive("all 256 pad bytes x both sides x 5 fixed shapes at N=5")
 	})
-	t.Run("random", func(t *testing.T) {
-		CheckProp(t, "C13", "c13", "random", genC13, oracleC13)
-	})
+	RunProps(t, rpC13())
 }
+
+func rpC13() []RProp { return []RProp{MkProp("C13", "c13", "random", genC13, oracleC13)} }
+
+func init() { RapidProps["C13"] = rpC13 }
